@@ -197,19 +197,58 @@ def run_round(n_clients, seed):
 
 
 def msg_id_part(nthreads, ncalls):
+    """Message IDs the one-call c_find() wrapper puts on the wire, seen per calling thread: every thread's IDs are its
+    own sequence (distinct, increasing), whatever the other threads do meanwhile."""
     import pynetdicom2
-    out = {}
+    FIND = '1.2.840.10008.5.1.4.1.2.1.1'
+    seen = {}
+    lock = threading.Lock()
+
+    def responder(dul, rec):
+        if rec['kind'] == 'pdu':
+            t = rec['spec'].get('t')
+            if t == 1:
+                pcs = [it for it in rec['spec']['items'] if it['t'] == 0x20]
+                return [fd.incoming_pdu(fd.ac_spec([(it['id'], 0, it['ts'][0]['name']) for it in pcs], 16384))]
+            if t == 5:
+                return [fd.incoming_pdu({'t': 6, 'r1': 0, 'r2': 0})]
+            return []
+        if rec['fields'].get(0x0100) == 0x0020:
+            with lock:
+                seen.setdefault(threading.current_thread().name, []).append(rec['fields'].get(0x0110))
+            f = {0x0002: rec['fields'].get(0x0002), 0x0100: 0x8020, 0x0120: rec['fields'].get(0x0110), 0x0900: 0}
+            pc = rec['pc_ids'][0]
+            return [lambda: fd.incoming_msg(dul, f, None, pc)]
+        return []
+
+    class Fac(fd.Factory):
+        def __call__(self, *a, **kw):
+            with lock:
+                d = fd.Factory.__call__(self, *a, **kw)
+            d.responder = responder
+            return d
+    errors = []
 
     def worker(i):
-        out[i] = [pynetdicom2._new_msg_id() for _ in range(ncalls)]
-    ths = [threading.Thread(target=worker, args=(i,)) for i in range(nthreads)]
-    for t in ths:
-        t.start()
-    for t in ths:
-        t.join()
-    for i, ids in out.items():
-        if len(set(ids)) != len(ids) or any(b <= a for a, b in zip(ids, ids[1:])):
-            raise Violation('%s:msg-id' % PROP, 'thread %d got message ids %r' % (i, ids[:8]), {'part': 'msgid'})
+        try:
+            for _ in range(ncalls):
+                list(pynetdicom2.c_find({'aet': 'SRV', 'address': 'peer.example', 'port': 104}, 'CLI%d' % i,
+                                        svc.simple_ds(QueryRetrieveLevel='PATIENT', PatientID='*'), FIND))
+        except Exception as exc:     # noqa
+            errors.append(exc)
+    with fd.installed(Fac()):
+        ths = [threading.Thread(target=worker, args=(i,), name='vf-msgid-%d' % i) for i in range(nthreads)]
+        for t in ths:
+            t.start()
+        for t in ths:
+            t.join()
+    if errors:
+        raise Violation('%s:msg-id:exception:%s' % (PROP, lib_frame(errors[0])), 'c_find() from %d threads at once raised %r'
+                        % (nthreads, errors[0]), {'part': 'msgid'})
+    for i, ids in seen.items():
+        if len(ids) != ncalls or len(set(ids)) != len(ids) or any(b <= a for a, b in zip(ids, ids[1:])):
+            raise Violation('%s:msg-id' % PROP, 'one thread\'s %d c_find() calls went out with message ids %r'
+                            % (ncalls, ids[:8]), {'part': 'msgid'})
 
 
 # ------------------------------------------------------------------------------------------------
@@ -435,7 +474,7 @@ def make_shared_server(storage_dir=None, few_classes=False):
     handlers = {'on_receive_echo': on_echo, 'on_receive_store': on_store, 'on_receive_find': on_find}
     if storage_dir is not None:
         # directory-backed storage as StorageAE does it
-        handlers['get_file'] = lambda context, command_set: pynetdicom2._get_storage_file(context, command_set, storage_dir)
+        handlers['get_file'] = pynetdicom2.ClientStorageAE(storage_dir, 'VERIF').get_file      # (as the packaged storage entities do)
     storage = sopclass.storage_scp
     if few_classes:
         # (an entity that also requests associations proposes everything it is configured with: keep that < 128)
@@ -963,14 +1002,14 @@ def run(ctx):
                 'generator) against one server entity over loopback TCP, R rounds with permuted start order; part b: '
                 '2-4 AssociationAcceptor.handle() bodies plus 0-2 associations the same entity requests itself, sharing one AE on scripted providers, interleaved at every '
                 'provider send/receive and inside every application handler by a baton scheduler whose order is Hypothesis-drawn, each compared with the '
-                'same association run alone; _new_msg_id() from concurrent threads; part c: PDU encode/decode, message fragmentation (bytes and file-like), group-length computation and status classification run in 8 threads under a 1 microsecond switch interval and must equal the single-threaded results; part d: one requesting entity with 2-4 associations open at the same time on scripted peers answering with Hypothesis-drawn result codes 0-4: each association proposes all configured classes and uses exactly what its own peer accepted; part e: 2-4 reassemblers (one per association) fed the fragmented messages of their associations in a drawn interleaving, each compared with being fed alone; part f: one long-lived entity on which 300 associations in a row fail in each of 7 ways (unusual sub-item order, request without user information, abort during negotiation, handler exception, refusal, a message no service can take, no acceptable context), an ordinary association after each run must be served; over real TCP, 1 / 3 connections on which the peer stays silent while an ordinary association must be served within 3 s; non-trivial = >=2 associations '
+                'same association run alone; message IDs of c_find() calls made from 8 threads at once; part c: PDU encode/decode, message fragmentation (bytes and file-like), group-length computation and status classification run in 8 threads under a 1 microsecond switch interval and must equal the single-threaded results; part d: one requesting entity with 2-4 associations open at the same time on scripted peers answering with Hypothesis-drawn result codes 0-4: each association proposes all configured classes and uses exactly what its own peer accepted; part e: 2-4 reassemblers (one per association) fed the fragmented messages of their associations in a drawn interleaving, each compared with being fed alone; part f: one long-lived entity on which 300 associations in a row fail in each of 7 ways (unusual sub-item order, request without user information, abort during negotiation, handler exception, refusal, a message no service can take, no acceptable context), an ordinary association after each run must be served; over real TCP, 1 / 3 connections on which the peer stays silent while an ordinary association must be served within 3 s; non-trivial = >=2 associations '
                 'overlapping (>=2 baton switches / >=2 clients)')
     ctx.assumptions = ['part a samples OS schedules; part b enumerates interleavings at primitive granularity only',
                        'server-side calls are attributed to associations through the handler thread (one thread per association)',
                        'time-outs and rounds over %d s are inconclusive' % ROUND_LIMIT]
     try:
-        msg_id_part(16, 200)
-        ctx.case(('msgid',), True, labels=['msg-id'], sample={'threads': 16, 'calls': 200})
+        msg_id_part(8, 25)
+        ctx.case(('msgid',), True, labels=['msg-id'], sample={'threads': 8, 'c_find calls each': 25})
     except Violation as v:
         ctx.fail(v.key, v.what, v.case)
     try:
@@ -1018,4 +1057,4 @@ def replay(case):
     elif case['part'] == 'baton':
         baton_case((case['k'], case['variant'], case['order'], case.get('requesters', 0)))
     else:
-        msg_id_part(16, 200)
+        msg_id_part(8, 25)
